@@ -3,6 +3,8 @@ package main
 // C14 case generators: room histories made of real, signed events; faults; provider behaviours.
 
 import (
+	"bytes"
+	"compress/gzip"
 	"encoding/json"
 	"fmt"
 	"math/rand"
@@ -351,12 +353,18 @@ func (b *c14Builder) ts(l []string) []int {
 	return r
 }
 
+// args: the raw scenario is handed over gzip-compressed (the model never reads it; it is kept
+// for the implementation side and for replays). c14Impl accepts plain JSON as well.
 func (b *c14Builder) args() [][]byte {
 	j, err := json.Marshal(b.spec)
 	if err != nil {
 		panic(err)
 	}
-	return [][]byte{j, nil}
+	var buf bytes.Buffer
+	zw, _ := gzip.NewWriterLevel(&buf, gzip.BestSpeed)
+	_, _ = zw.Write(j)
+	_ = zw.Close()
+	return [][]byte{buf.Bytes(), nil}
 }
 
 var c14ProvModes = []string{"orig", "nothing", "error", "diff_once", "err_then_orig", "nonstate", "bad", "diff_then_nothing", "none"}
@@ -564,7 +572,10 @@ func init() {
 	})
 }
 
-type c14Gen struct{ c *Ctx }
+type c14Gen struct {
+	c *Ctx
+	n int
+}
 
 // stationary: every script is a single answer (nothing, an error, or one event carrying the
 // requested ID) -- the provider is then a function of the requested ID and the specification
@@ -600,7 +611,19 @@ func (g *c14Gen) run(b *c14Builder, desc string) []byte {
 	if prop != "" {
 		g.c.Count("oracle:" + b.spec.Op)
 	}
-	return g.c.Run("C14.run", b.args(), "C14."+b.spec.Op, prop, desc)
+	out := g.c.Run("C14.run", b.args(), "C14."+b.spec.Op, prop, desc)
+	// end to end: the same scenario with C07's auth model inside the Coq model
+	switch b.spec.Op {
+	case "csr", "sj", "chain":
+		g.n++
+		if g.n%g.c.Scale(4, 3) == 0 {
+			b.spec.E2E = true
+			g.c.Count("e2e:" + b.spec.Op)
+			g.c.Run("C14.run", b.args(), "C14."+b.spec.Op+"_e2e", "", "e2e "+desc)
+			b.spec.E2E = false
+		}
+	}
+	return out
 }
 
 func (g *c14Gen) genState(h *c14History) {
@@ -617,8 +640,14 @@ func (g *c14Gen) genState(h *c14History) {
 			f := []c14Fault{{pos.list, pos.pos, kind}}
 			modes := []string{c14ProvModes[k%len(c14ProvModes)]}
 			k++
-			if kind == "missing" || (!h.room.v1 && (kind == "disallowed" || kind == "wrongroom")) {
+			if kind == "missing" {
 				modes = c14ProvModes
+			} else if !h.room.v1 && (kind == "disallowed" || kind == "wrongroom") {
+				// the event ID changes with the content: later events now cite a missing event
+				modes = c14ProvModes
+				if !c.Thorough() {
+					modes = []string{"orig", "nothing", "error", "diff_once", "none"}
+				}
 			}
 			for _, mode := range modes {
 				c.Count("fault:" + kind)
@@ -632,7 +661,7 @@ func (g *c14Gen) genState(h *c14History) {
 	}
 	// fault subsets of size 2 and 3
 	ps := h.positions()
-	for i := 0; i < c.Scale(150, 1500); i++ {
+	for i := 0; i < c.Scale(110, 1500); i++ {
 		n := 2 + c.Rng.Intn(2)
 		var f []c14Fault
 		for j := 0; j < n; j++ {
@@ -744,10 +773,15 @@ func (g *c14Gen) genChain(h *c14History) {
 		}
 		// two auth events answered with the same third event whose own auth event is unavailable
 		if len(e.auth) >= 2 {
+			taken := 0
 			for _, o := range h.room.evs {
-				if len(o.auth) == 0 || o == e.auth[0] || o == e.auth[1] || c.Rng.Intn(3) != 0 {
+				if len(o.auth) == 0 || o == e.auth[0] || o == e.auth[1] || o == e || taken >= 2 {
 					continue
 				}
+				if last := o.auth[len(o.auth)-1]; last == e.auth[0] || last == e.auth[1] {
+					continue
+				}
+				taken++
 				other = o
 				g.run(mk(e, "", map[*c14Ev]string{e.auth[0]: "diff_once", e.auth[1]: "diff_once", o.auth[len(o.auth)-1]: "nothing"}, "orig"),
 					fmt.Sprintf("chain v%s %s: two answers are %s", ver, e.name, o.name))
